@@ -1,9 +1,9 @@
-from . import streams_search
+from . import streams_search, cli
 
 ID = 'C12'
 PROPS_MODULE = ['Refine.Props.C12']
 STREAMS = [streams_search.TREE, streams_search.NEAREST, streams_search.KERNEL, streams_search.SCALE_TIE,
-           streams_search.SCALE]
+           streams_search.SCALE, cli.DISTANCE, cli.DISTANCE_MPI]
 
 EXPLANATION = (
     'Proved in Lean over exact real arithmetic, for the executable model of ref_search.c / '
